@@ -203,6 +203,8 @@ pub fn bfs<M: Model>(model: &M, seeds: &[Vec<M::Act>], lim: &Limits) -> Report<M
         let chunk = (frontier.len() + nw - 1) / nw;
         let visited_ref = &visited;
         let deadline = lim.max_secs;
+        // states of the last level are never expanded: keep only their keys (most of the memory)
+        let keep_states = d < lim.depth;
         let results: Vec<Vec<Produced<M>>> = std::thread::scope(|sc| {
             let mut hs = vec![];
             for part in frontier.chunks(chunk) {
@@ -228,7 +230,7 @@ pub fn bfs<M: Model>(model: &M, seeds: &[Vec<M::Act>], lim: &Limits) -> Report<M
                             let (key, state) = match ns {
                                 Some(ns) => {
                                     let k = model.key(&ns);
-                                    if visited_ref.contains_key(&k) {
+                                    if visited_ref.contains_key(&k) || !keep_states {
                                         (Some(k), None)
                                     } else {
                                         (Some(k), Some(ns))
@@ -271,7 +273,7 @@ pub fn bfs<M: Model>(model: &M, seeds: &[Vec<M::Act>], lim: &Limits) -> Report<M
                     p.out,
                     &mut executions,
                 );
-                if let (Some(k), Some(st)) = (p.key, p.state) {
+                if let Some(k) = p.key {
                     if !visited.contains_key(&k) {
                         let idx = parents.len() as u32;
                         visited.insert(k, idx);
@@ -279,7 +281,9 @@ pub fn bfs<M: Model>(model: &M, seeds: &[Vec<M::Act>], lim: &Limits) -> Report<M
                         parents.push((p.parent, Some(p.act), seed));
                         new_here += 1;
                         new_checks.push(idx);
-                        next.push((idx, st));
+                        if let Some(st) = p.state {
+                            next.push((idx, st));
+                        }
                     }
                 }
             }
